@@ -1,2 +1,14 @@
 """Claims: filled as checks are built."""
 from .registry import claim, NOT_APPLICABLE  # noqa
+
+_TB = ('z3 decides each obligation for all reals/ints on the path; Python floats are abstracted by exact reals; '
+       'proxies/shims of vf/symx.py are trusted (cross-checked by concrete replays); bounds are listed in the evidence')
+
+claim('C09', 'model_checking',
+      'Bounded model checking of the real TaskQueue: every history of <=4 (quick) / <=5 (thorough) operations over '
+      'the full operation alphabet and 3 tasks, with symbolic priorities (ties included), is compared with a '
+      'sorted-list reference by z3 validity queries; plus an inductive step from an arbitrary invariant-satisfying '
+      'heap of <=3/4 entries, which extends the claim to histories of any length within that heap size.',
+      _TB + '; heapq and list comparison are executed, not modelled.',
+      'symbolic execution of the real class (concolic z3 proxies) + per-path SMT validity; inductive step over the '
+      'representation invariant', 'DESIGN.md 3/C09')
